@@ -43,8 +43,9 @@ def fm_to_clafer(feature_model: FeatureModel) -> str:
     result = f'abstract {result}'
     # Definition of attributes at the top of the model:
     result = attributes_definition(feature_model) + '\n' + result
+    declared = {feature.name for feature in feature_model.get_features()}
     for ctc in feature_model.get_constraints():
-        result += read_constraints(ctc)
+        result += read_constraints(ctc, declared)
     # Create an instance
     result += f'\n\n{INSTANCE} : {safename(feature_model.root.name)}\n'
     return result
@@ -109,9 +110,9 @@ def parse_group_type(feature: Feature) -> Optional[str]:
     return group_type
 
 
-def read_constraints(const: Constraint) -> str:
+def read_constraints(const: Constraint, declared: Optional[set[str]] = None) -> str:
     result = ""
-    constraint_text = serialize_constraint(const)
+    constraint_text = serialize_constraint(const, declared)
     result = "\n" + constraint_text
     return result
 
@@ -126,20 +127,24 @@ CLAFER_OPERATORS = {ASTOperation.NOT: 'not',
                     ASTOperation.EXCLUDES: '=> not'}
 
 
-def serialize_constraint(ctc: Constraint) -> str:
-    return f'[{serialize_node(ctc.ast.root)}]'
+def serialize_constraint(ctc: Constraint, declared: Optional[set[str]] = None) -> str:
+    return f'[{serialize_node(ctc.ast.root, declared)}]'
 
 
-def serialize_node(node: Node) -> str:
+def serialize_node(node: Node, declared: Optional[set[str]] = None) -> str:
     """Clafer text of a constraint: the layout of Node.pretty_str with Clafer's operators.
 
-    Only operator nodes are translated, so a feature may be named like an operator.
+    Only operator nodes are translated, so a feature may be named like an operator. A term that
+    is the name of a declared feature is written with the identifier of its declaration
+    (pretty_str would split a name at its dots and take one in apostrophes for a string).
     """
+    if not node.is_op() and declared is not None and str(node.data) in declared:
+        return safename(str(node.data))
     if not node.is_op() or node.is_aggregate_op():
         return node.pretty_str()
     symbol = CLAFER_OPERATORS.get(node.data, node.data.value)
-    operands = [f'({serialize_node(operand)})' if operand.is_binary_op()
-                else serialize_node(operand)
+    operands = [f'({serialize_node(operand, declared)})' if operand.is_binary_op()
+                else serialize_node(operand, declared)
                 for operand in (node.left, node.right) if operand is not None]
     if node.is_unary_op():
         return f'{symbol} {operands[0]}'
